@@ -677,7 +677,7 @@ func (c *coll) validActions(acts []string) bool {
 			if c.kinds[f[1]] != "bool" {
 				return false
 			}
-		case f[0] == "key" && len(f) == 2:
+		case (f[0] == "key" || f[0] == "rowkey") && len(f) == 2:
 			if _, ok := unhex(f[1]); !ok || !c.hasKey {
 				return false
 			}
@@ -728,6 +728,13 @@ func (c *coll) runActions(txn *column.Txn, r column.Row, acts []string) (string,
 			} else {
 				outs = append(outs, "set")
 			}
+		case f[0] == "rowkey" && len(f) == 2:
+			// Row.SetKey: the same re-keying, its refusal of a key held elsewhere is not reported to the caller
+			val, ok := unhex(f[1])
+			if !ok || !c.hasKey {
+				return "", false
+			}
+			r.SetKey(string(val))
 		case f[0] == "visit" && len(f) == 2:
 			// the callback looks at another row (nested point read): the transaction's cursor moves there
 			off, _ := strconv.ParseUint(f[1], 10, 32)
